@@ -389,3 +389,82 @@ Proof.
   destruct Wr as (-> & W' & E' & C' & Ow' & O' & Rc' & Cl).
   repeat (split; [assumption|]). exact Cl.
 Qed.
+
+(* ---------------------------------------------------------------- uriRemoveBaseUriMm *)
+Definition rc_ok2 (rc : N) (s s' : mstate) : Prop :=
+  rc = URI_SUCCESS \/ rc = URI_ERROR_REMOVEBASE_REL_BASE \/ rc = URI_ERROR_REMOVEBASE_REL_SOURCE
+  \/ (rc = URI_ERROR_MALLOC /\ fails_between s s').
+
+Ltac fail_exit2 D Fl := split; [exact D|right; right; right; split; [reflexivity|apply Fl; reflexivity]].
+
+Lemma remove_base_impl_m_spec domain_root src base s : wf s ->
+  match remove_base_impl_m domain_root src base s with
+  | (rc, d, s') => dst s s' d /\ rc_ok2 rc s s'
+  end.
+Proof.
+  intros W. pose proof (dst_empty s W) as D0. unfold remove_base_impl_m, rc_ok2. cbv zeta.
+  destruct (t_val (m_scheme base)) as [tb|]; [|split; [exact D0|right; left; reflexivity]].
+  destruct (t_val (m_scheme src)) as [ts|]; [|split; [exact D0|right; right; left; reflexivity]].
+  assert (Copy : forall d, dst s s d -> m_ip4 d = None -> m_ip6 d = None -> m_segs d = [] ->
+    match (let '(ok, d, s) := copy_authority_m d src s in
+           if negb ok then (URI_ERROR_MALLOC, d, s) else
+           let '(ok, d, s) := copy_path_m d src s in
+           if negb ok then (URI_ERROR_MALLOC, d, s)
+           else (URI_SUCCESS, set_m_fragment (borrow (m_fragment src)) (set_m_query (borrow (m_query src)) d), s)) with
+    | (rc, d, s') => dst s s' d /\ (rc = URI_SUCCESS \/ rc = URI_ERROR_REMOVEBASE_REL_BASE \/ rc = URI_ERROR_REMOVEBASE_REL_SOURCE
+                                    \/ rc = URI_ERROR_MALLOC /\ fails_between s s')
+    end).
+  { intros d D H4 H6 Hs.
+    pose proof (dst_copy_authority _ _ _ src D H4 H6) as R1.
+    destruct (copy_authority_m d src s) as [[ok1 d1] s1]. destruct R1 as (D1 & E1 & Fl1).
+    destruct ok1; cbn [negb]; cbv beta iota; [|fail_exit2 D1 Fl1].
+    rewrite Hs in E1.
+    pose proof (dst_copy_path _ _ _ src D1 E1) as R2.
+    destruct (copy_path_m d1 src s1) as [[ok2 d2] s2]. destruct R2 as (D2 & Fl2).
+    destruct ok2; cbn [negb]; cbv beta iota; [|fail_exit2 D2 Fl2].
+    split; [apply dst_fragment; apply dst_query; exact D2|left; reflexivity]. }
+  destruct (negb (range_eqb (scheme (erase src)) (scheme (erase base)))).
+  - apply Copy; try reflexivity. apply dst_scheme. exact D0.
+  - destruct (negb (equals_authority (erase src) (erase base))).
+    + destruct (negb (is_host_set (erase src)) && is_host_set (erase base)).
+      * apply Copy; try reflexivity. apply dst_scheme. exact D0.
+      * apply Copy; try reflexivity. exact D0.
+    + destruct domain_root.
+      * pose proof (dst_copy_path _ _ _ src D0 eq_refl) as R2.
+        destruct (copy_path_m muri_empty src s) as [[ok2 d2] s2]. destruct R2 as (D2 & Fl2).
+        destruct ok2; cbn [negb]; cbv beta iota; [|fail_exit2 D2 Fl2].
+        pose proof (dst_fix_ambiguity _ _ _ (dst_abs _ _ _ true D2)) as R4.
+        destruct (fix_ambiguity_m (set_m_abs true d2) s2) as [[ok4 d4] s4]. destruct R4 as (D4 & Fl4).
+        destruct ok4; cbn [negb]; cbv beta iota; [|fail_exit2 D4 Fl4].
+        split; [apply dst_fragment; apply dst_query; exact D4|left; reflexivity].
+      * destruct (skip_common (pathSegs (erase src)) (pathSegs (erase base))) as [s' b'].
+        pose proof D0 as (_ & I0 & Ow0). pose proof (dst_to_segs _ _ _ D0) as S0.
+        pose proof (append_segs_spec (parents b' ++ rest_segments match parents b' with [] => true | _ :: _ => false end s') [] s s _ S0 (Forall_nil _)) as R.
+        destruct (append_segs [] _ s) as [[ok segs] s1]. destruct R as (S1 & Fs & Fl).
+        pose proof (segs_to_dst _ _ _ _ I0 Ow0 S1 Fs) as D1.
+        destruct ok.
+        -- split; [apply dst_fragment; apply dst_query; exact D1|left; reflexivity].
+        -- fail_exit2 D1 Fl.
+Qed.
+
+Theorem remove_base_m_spec domain_root src base s : wf s ->
+  match remove_base_m domain_root src base s with
+  | (rc, d, s') =>
+    wf s' /\ ext s s' /\ consistent d /\ m_owner d = false /\ over s' (muri_blocks d) (L s)
+    /\ rc_ok2 rc s s'
+    /\ (rc <> URI_SUCCESS -> muri_blocks d = [] /\ free_members d s' = (d, s'))
+  end.
+Proof.
+  intros W. unfold remove_base_m. pose proof (remove_base_impl_m_spec domain_root src base s W) as R.
+  destruct (remove_base_impl_m domain_root src base s) as [[rc d] s1]. destruct R as (D & Rc).
+  pose proof D as ((W1 & E1 & O1) & I & Ow). destruct (N.eqb_spec rc 0) as [E0|E0].
+  - split; [exact W1|]. split; [exact E1|]. split; [unfold consistent; rewrite Ow; exact I|].
+    split; [exact Ow|]. split; [exact O1|]. split; [exact Rc|]. intros H. contradiction.
+  - destruct (free_members d s1) as [d' s'] eqn:EF.
+    destruct (free_members_rel d s1 d' s' W1 (dst_owns _ _ _ D) EF) as (Rl & Eb & C' & Ow' & Idem).
+    drel Rl W2 E2 Q2 N2 H2.
+    split; [exact W2|]. split; [eapply ext_trans; eauto|]. split; [exact C'|].
+    split; [congruence|]. split; [rewrite Eb; unfold over in *; pwl|]. split; [|intros _; split; assumption].
+    destruct Rc as [H|[H|[H|[H Fl]]]]; [left; exact H|right; left; exact H|right; right; left; exact H|right; right; right; split; [exact H|]].
+    eapply fails_ext; eauto.
+Qed.
